@@ -504,6 +504,15 @@ def run(ctx):
     from .C08 import check_col
     ctx.rule("C01-DESIGN", "trend / offset design matrix and offset-prior order (shared implementation with C08-COL).")
     check_col(_Relabel(ctx, {"C08-COL": "C01-DESIGN"}))
+    from .C07 import check_meanstd
+    check_meanstd(_Relabel(ctx, {"C07-MEANSTD": "C01-UNIT"}))
+    from .C15 import check_ivar
+    ctx.rule("C01-IVAR", "the inverse variances handed to the kernel are 1/err^2 (or the full inverse covariance) of the stored errors (shared with C15-IVAR).")
+    check_ivar(_Relabel(ctx, {"C15-IVAR": "C01-IVAR"}))
+    from .C05 import check_fresh
+    ctx.rule("C01-STATE", "nothing on the sampler path keeps or changes state between calls (no memoisation, no module-level mutation - e.g. of the internal unit table the "
+                          "helper reads -, no caching on caller-owned objects): the value for a sample cannot depend on what was evaluated before (shared with C05-FRESH).")
+    check_fresh(_Relabel(ctx, {"C05-FRESH": "C01-STATE"}))
     from .C04 import check_tref as c04_tref
     from .C15 import check_tref as c15_tref
     ctx.rule("C01-EPOCH", "the Kepler column and the trend powers are taken about data._t_ref_bmjd, the TCB MJD of the data's reference epoch (shared with C04-TREF / C15-TREF).")
